@@ -400,11 +400,14 @@ def copy_node(n):
     return _c.deepcopy(n)
 
 
-def conc_template(depth, fan, width=2, map_at=None, async_leaves=True, sync_last=False, pool=False):
+def conc_template(depth, fan, width=2, map_at=None, async_leaves=True, sync_last=False, pool=False, gen_last=False):
     """Nested / mapped shape for the concurrency checks: `depth` nested graph levels, each with
     `width` parallel leaves and a join; at level `map_at` the nested node maps over a list of `fan`
     items.  Returns (prog, provided, lists)."""
     def A(name, ins, outs, sync=False):
+        # gen_last: the last leaf of every level is an ASYNC GENERATOR (its body runs while the runner drains it)
+        if gen_last and (name == f"T{width - 1}" or (name[0] == "L" and name.endswith(f"_{width - 1}"))):
+            return IR.func(name, ins, outs, is_async=True, fn="gen")
         return IR.func(name, ins, outs, is_async=async_leaves and not sync)
 
     def level(d):
